@@ -17,7 +17,7 @@ func init() {
 		Rule: "case = (writer schema W, value w, reader type T derived from W by removing/adding/retyping/renumbering fields recursively, random field order on the wire, optional trailing bytes, destination pre-filled with junk); the message comes from the reference encoder or from frugal's own encoder; oracle = whole destination and n equal the reference decoder's on an identically pre-filled destination; distinct = distinct (W shape, T shape); non-trivial = the message carries at least one field T recognises and one it does not",
 		Plan: func(tier string) []BuildPlan {
 			if tier == "thorough" {
-				return []BuildPlan{{"plain", 200000}, {"checkptr", 60000}, {"asan", 20000}}
+				return []BuildPlan{{"plain", 400000}, {"checkptr", 100000}, {"asan", 30000}}
 			}
 			return []BuildPlan{{"plain", 5000}, {"checkptr", 2500}}
 		},
